@@ -62,6 +62,7 @@ type xTrial struct {
 	varsSeen string
 	ctxTag  int
 	nnThunks bool
+	badRT    bool // values of abstract type mostly carry a runtime type that is not a possible type
 	viaFR    bool // non-root fields have no Resolve function and are resolved through FieldResolver sources
 	tags    map[string]bool
 	root    map[string]interface{}
@@ -178,6 +179,11 @@ func (t *xTrial) good(r *Rng, ty *xTy, depth int) interface{} {
 	case "interface", "union":
 		ps := t.s.possible(ty.Name)
 		t.nextID++
+		if t.badRT && r.Chance(60) {
+			// a type resolver that keeps answering with an object type outside the abstract type
+			t.tags["non-possible-runtime-type"] = true
+			return &xNode{ID: t.nextID, Type: "Q", t: t}
+		}
 		if len(ps) == 0 {
 			return &xNode{ID: t.nextID, Type: "Q", t: t}
 		}
@@ -551,7 +557,7 @@ func (t *xTrial) reset(seed uint64) {
 // variables, roots and resolver outcomes); one observation per execution is returned.
 func xRun(rq *xRequest) []*xObserved {
 	t := &xTrial{s: rq.s, seed: rq.seed, pol: rq.pol, callPaths: map[string]int{}, tags: map[string]bool{}, ctxTag: int(rq.seed%1000) + 1,
-		root: map[string]interface{}{"__root": int(rq.seed % 77)}, nnThunks: NewRng(rq.seed, 4242).Chance(10), viaFR: NewRng(rq.seed, 777).Chance(25)}
+		root: map[string]interface{}{"__root": int(rq.seed % 77)}, nnThunks: NewRng(rq.seed, 4242).Chance(10), viaFR: NewRng(rq.seed, 777).Chance(25), badRT: NewRng(rq.seed, 999).Chance(rq.pol.BadType)}
 	if t.viaFR {
 		// every object source must be a harness node then
 		t.pol.Adversarial = 0
